@@ -422,6 +422,12 @@ def gen_world(src, profile):
                     if a["default"][0] in ("lit", "field_default"):
                         a["default"] = ["attr_default"] + a["default"][1:]
     world["classes"].append(mdesc)
+    if profile.get("cached_props") and src.chance(1, 3):
+        cands = [a for a in m_attrs if a["default"][0] in ("lit", "attr_factory") and not any(k in a for k in ("init", "repr", "compare", "invalidated_by", "do_not_copy"))
+                 and a["type"][0] in ("int", "list", "dict", "set")]
+        if cands:
+            a = src.pick(cands)
+            a["default"] = ["cached_prop", a["default"][1]]
     for c in world["classes"]:
         d = [a["name"] for a in c["attrs"] if a.get("do_not_copy") == "decorator"]
         if d:
@@ -626,6 +632,11 @@ class World:
                     pass
                 elif style == "attr_none":
                     ns[a["name"]] = Attr(**flags)
+                elif style == "cached_prop":
+                    from spec_classes import spec_property
+
+                    # a managed attribute whose value is derived (and cached on first read) until it is assigned
+                    ns[a["name"]] = spec_property(self._factory_getter(d[1]), cache=True, overridable=True)
                 elif style == "lit":
                     ns[a["name"]] = self._default_obj(d[1])
                 elif style == "attr_default":
@@ -723,6 +734,14 @@ class World:
         v = self.realize(vdesc)
         self.default_objects.append(v)
         return v
+
+    def _factory_getter(self, vdesc):
+        world = self
+
+        def getter(instance):
+            return world.realize(vdesc)
+
+        return getter
 
     def _factory(self, vdesc):
         world = self
